@@ -714,6 +714,8 @@ def check_angular_momentum(run, tree):
                         self.__name__, self.method = name, method
 
                     def __call__(self, x, *a, **k):
+                        if isinstance(x, (list, tuple)) or isinstance(x, SNum):
+                            return _extreme(self.method)(x)
                         if isinstance(x, PyObj):
                             mm = tree.method(x._cls, "__array_function__")
                             if mm is None:
